@@ -481,7 +481,8 @@ func runElkBatch(r *engine.R, f *lflavour, ops []eop, items []elkItem, base int)
 		if ir.Out == "" {
 			got = nil
 		}
-		bad := false
+		bad, flawed := false, false
+		seenObs := map[string]bool{}
 		for li := 0; li < len(got) && li < len(e.lines) && !bad; li++ {
 			kind := e.kinds[li]
 			if e.lines[li] != "OBS" {
@@ -504,24 +505,46 @@ func runElkBatch(r *engine.R, f *lflavour, ops []eop, items []elkItem, base int)
 				continue
 			}
 			diffs := compareObs(f, e.models[li], got[li])
-			if len(diffs) > 0 && e.altRm[li] != nil {
-				if alt := compareObs(f, e.altRm[li], got[li]); len(alt) == 0 {
+			isState := func(d string) bool {
+				return strings.HasPrefix(d, "length wrong") || strings.HasPrefix(d, "iteration does not") || d == "unparsable observation"
+			}
+			stateBad := false
+			for _, d := range diffs {
+				stateBad = stateBad || isState(d)
+			}
+			report := func(what string) {
+				r.Violation(sigp+what, fmt.Sprintf("%s %s\nline %d printed  %q\n       expected %q", f.label, e.desc, li, got[li], strings.Join(f.expect(e.models[li]), " ")), input)
+				r.Outcome("wrong:" + what)
+				flawed = true
+			}
+			if stateBad && e.altRm[li] != nil {
+				altBad := false
+				for _, d := range compareObs(f, e.altRm[li], got[li]) {
+					altBad = altBad || isState(d)
+				}
+				if !altBad {
+					// `remove` removed every occurrence: accepted; the rest of the program was generated for the other reading
 					r.Outcome("remove:every-occurrence")
-					// the rest of the program was generated for the other reading: stop comparing here
-					bad = true
 					r.Count("programs_cut_after_remove_removed_every_occurrence", 1)
+					bad = true
 					break
 				}
-				diffs = []string{"remove(v) leaves a list that is neither `without the first v` nor `without every v`"}
-			}
-			for _, d := range diffs {
-				what := d
-				if strings.HasPrefix(d, "length wrong") || strings.HasPrefix(d, "iteration does not") {
-					what = f.class() + " " + d + " after " + kind // contents: blamed on the operation
-				}
-				r.Violation(sigp+what, fmt.Sprintf("%s %s\nline %d printed  %q\n       expected %q", f.label, e.desc, li, got[li], strings.Join(f.expect(e.models[li]), " ")), input)
-				r.Outcome("wrong:" + d)
+				report("remove(v) leaves a list that is neither `without the first v` nor `without every v`")
 				bad = true
+				break
+			}
+			if stateBad {
+				// the contents diverged from the model: blamed on the operation; everything later is a consequence
+				report(f.class() + " contents differ from the sequence model after " + kind)
+				bad = true
+				break
+			}
+			// the contents are right: wrong observers are reported (once per program) and the comparison continues
+			for _, d := range diffs {
+				if !seenObs[d] {
+					seenObs[d] = true
+					report(d)
+				}
 			}
 		}
 		failedKind := "end"
@@ -530,7 +553,7 @@ func runElkBatch(r *engine.R, f *lflavour, ops []eop, items []elkItem, base int)
 		}
 		switch {
 		case ir.Panic != "":
-			r.Violation(sigp+"go-panic: "+normPanic(ir.Panic), fmt.Sprintf("%s %s\nduring %s\n%s", f.label, e.desc, failedKind, trimStack(ir.Stack)), input)
+			r.Violation(sigp+"go-panic "+firstFrame(normPanic(ir.Panic)), fmt.Sprintf("%s %s\nduring %s\n%s", f.label, e.desc, failedKind, trimStack(ir.Stack)), input)
 			r.Outcome("go-panic")
 		case ir.Rejected:
 			r.Violation(sigp+f.class()+" well-typed program rejected: "+firstDiag(ir.Diags), fmt.Sprintf("%s %s\n%s\n%s", f.label, e.desc, progs[i].Code, ir.Diags), input)
@@ -540,7 +563,7 @@ func runElkBatch(r *engine.R, f *lflavour, ops []eop, items []elkItem, base int)
 			r.Outcome("error:" + ir.ErrClass)
 		case !bad && len(got) != len(e.lines):
 			r.Violation(sigp+"output truncated", fmt.Sprintf("%s\nexpected %d lines, got %d", e.desc, len(e.lines), len(got)), input)
-		case !bad:
+		case !bad && !flawed:
 			last := "literal"
 			if n := len(items[i].seq); n > 0 {
 				last = ops[items[i].seq[n-1]].kind
@@ -612,18 +635,12 @@ func compareObs(f *lflavour, m []int, got string) []string {
 			switch {
 			case wv == "IndexError":
 				add("slice by a " + r.kind + " range" + neg + " reaching past the end does not raise an index error")
+			case wv == "[]":
+				add("slice by an empty " + r.kind + " range" + neg + " does not yield an empty result (elements or an index error instead)")
 			case gv == "IndexError":
-				if wv == "[]" {
-					add("slice by an empty " + r.kind + " range" + neg + " raises an index error")
-				} else {
-					add("slice by a valid " + r.kind + " range" + neg + " raises an index error")
-				}
+				add("slice by a valid " + r.kind + " range" + neg + " raises an index error")
 			default:
-				if wv == "[]" {
-					add("slice by an empty " + r.kind + " range" + neg + " is not empty")
-				} else {
-					add("slice by a " + r.kind + " range" + neg + " returns the wrong elements")
-				}
+				add("slice by a " + r.kind + " range" + neg + " returns the wrong elements")
 			}
 		}
 	}
